@@ -59,6 +59,29 @@ let run_fpos (args : string list) : string =
      | Err _ -> "err" | Panic -> "panic" | OutOfFuel -> "fuel")
   | _ -> "bad-args"
 
+(* fsheet xls SHEETS NAMES XTIS RECS: the formula range of one sheet substream (FORMULA / SHRFMLA /
+   ARRAY / EOF and ignored records; typ:hexpayload,…), SHEETS as the decoder's table holds them
+   (quoted), NAMES / XTIS as for `ptg`; answer in the format of `open … formula` *)
+let range_str (r : BinNums.coq_N list Range.range) : string =
+  match Range.start r, Range.end_ r with
+  | Some (sr, sc), Some (er, ec) ->
+    let rows = Range.rows r in
+    Printf.sprintf "R[%s,%s,%s,%s|%s]" (string_of_n sr) (string_of_n sc) (string_of_n er) (string_of_n ec)
+      (String.concat "/" (List.map (fun row -> String.concat "," (List.map hex_of_scalars row)) rows))
+  | _ -> "R[-]"
+
+let run_fsheet (args : string list) : string =
+  match args with
+  | ["xls"; sh; nm; xt; rs] ->
+    (* the Debug text of an undecodable formula is outside the model: never compared *)
+    let unrec _ _ = List.map (fun c -> Conv.n_of_int (Char.code c)) ['?'] in
+    (match FormulaSheet.xls_sheet_formula_range Cmd_ptg.show_f64 unrec (name_list sh) (name_list nm)
+             (Cmd_ptg.xti_list xt) (recs rs) with
+     | Ok r -> range_str r
+     | Err _ -> "err" | Panic -> "panic" | OutOfFuel -> "fuel")
+  | _ -> "bad-args"
+
+let () = Registry.register "fsheet" run_fsheet
 let () = Registry.register "fenv" run_fenv
 let () = Registry.register "fpos" run_fpos
 let init () = ()
